@@ -18,7 +18,8 @@ RULE = (
     "with tasks, methods and an initial task network, MultiAgentProblem with agent-local and environment fluents) is cloned; "
     "then a generated history of 3-14 model-building operations is applied (add fluent / object / action - fresh and "
     "name-clashing -, add goal, timed goal, timed effect - assign / increase / decrease, conflicting and not -, trajectory "
-    "constraint, quality metric, set initial value, add precondition / effect to an existing action fetched by name, contingent "
+    "constraint, quality metric, set initial value, add precondition / effect to an existing action fetched by name, add condition / effect at a timing of an existing "
+    "durative action, fluents added without a default under per-type constructor defaults, contingent "
     "constraints, HTN task / method / subtask, agent fluent / action / goal).  Each operation is applied to both sides, or "
     "(independence steps) to one side first with the other side's digest checked unchanged, then to the other.  Oracle: right "
     "after cloning clone == original, equal hash, equal kind, equal structural digest; every operation succeeds on the clone iff "
@@ -66,6 +67,16 @@ def cases(draw):
         from checks.c20 import _decorate
 
         _decorate(g, p)
+    if g.b(0.5):
+        # per-type defaults given to the constructor: they apply to fluents added later without a default
+        td = []
+        if g.b(0.7):
+            td.append(["bool", ["b", g.b()]])
+        if g.b(0.6):
+            td.append([["int", None, None], ["i", g.i(-1, 3)]])
+        if g.b(0.3):
+            td.append([["real", None, None], ["r", g.pick(["1/2", "3", "0"])]])
+        p["type_defaults"] = td
     if cls == "contingent":
         case["hidden"] = _gen_hidden(g, p)
     if cls == "htn":
@@ -82,6 +93,10 @@ def cases(draw):
         kinds = ["add_fluent", "add_object", "add_action", "add_goal", "set_init", "act_effect", "act_pre"]
         if cls != "ma":
             kinds += ["timed_effect", "timed_effect", "timed_goal", "traj", "metric"]
+        if cls == "temporal":
+            kinds += ["dur_effect", "dur_effect", "dur_pair", "dur_pair", "dur_cond"]
+        if cls != "ma":
+            kinds += ["timed_pair"]
         if cls == "contingent":
             kinds += ["oneof", "or", "unknown"]
         if cls == "htn":
@@ -160,6 +175,55 @@ def cases(draw):
                 if r is None:
                     continue
                 op["eff"] = r[0]
+        elif k in ("dur_pair", "timed_pair"):
+            # an increase / decrease of a numeric fluent at one time, then an assignment of the same fluent at
+            # ANOTHER time of the same container: no conflict - unless bookkeeping leaks between times
+            nums = [f for f in g.fluents if f["type"] != "bool" and f["type"][0] in ("int", "real") and not f["params"] and not f.get("nowrite")]
+            if not nums:
+                continue
+            f = g.pick(nums)
+            first = {"kind": g.pick(["inc", "dec"]), "fl": ["fl", f["name"]], "val": ["i", 1], "cond": None, "forall": []}
+            second = {"kind": "assign", "fl": ["fl", f["name"]], "val": g.const_of(f["type"]), "cond": None, "forall": []}
+            if g.b(0.3):
+                first, second = second, first
+            if k == "dur_pair":
+                durs = [a for a in p["actions"] if "dur" in a]
+                if not durs:
+                    continue
+                a = g.pick(durs)
+                t1, t2 = g.pick([(["s", 0], ["e", 0]), (["e", 0], ["s", 0]), (["s", 0], ["s", 1])])
+                used = []
+                for e_ in a["effs"]:
+                    if e_["t"] not in used:
+                        used.append(e_["t"])
+                if len(used) >= 2 and g.b(0.7):
+                    # two times at which the action already has effects (their bookkeeping exists at clone time)
+                    i1 = g.i(0, len(used) - 1)
+                    i2 = (i1 + g.i(1, len(used) - 1)) % len(used)
+                    t1, t2 = used[i1], used[i2]
+                ops.append({"op": "dur_effect", "mode": mode, "action": a["name"], "eff": first, "t": t1})
+                ops.append({"op": "dur_effect", "mode": g.pick(["both", "orig-first", "clone-first"]), "action": a["name"], "eff": second, "t": t2})
+            else:
+                t1, t2 = g.pick([(["gs", 1], ["gs", 2]), (["gs", 5], ["gs", 1])])
+                ops.append({"op": "timed_effect", "mode": mode, "eff": dict(first, t=t1)})
+                ops.append({"op": "timed_effect", "mode": g.pick(["both", "orig-first", "clone-first"]), "eff": dict(second, t=t2)})
+            continue
+        elif k in ("dur_effect", "dur_cond"):
+            durs = [a for a in p["actions"] if "dur" in a]
+            if not durs:
+                continue
+            a = g.pick(durs)
+            sc = {"params": [(n, t) for n, t in a["params"]], "vars": []}
+            op["action"] = a["name"]
+            if k == "dur_cond":
+                op["iv"] = g.pick([[["s", 0], ["s", 0], False, False], [["s", 0], ["e", 0], False, False], [["e", 0], ["e", 0], False, False]])
+                op["e"] = g.bool_expr(sc, 1)
+            else:
+                r = g.gen_effect(sc, [])
+                if r is None:
+                    continue
+                op["eff"] = r[0]
+                op["t"] = g.pick([["s", 0], ["e", 0], ["s", 0], ["e", 0], ["s", 1]])
         elif k in ("oneof", "or", "unknown"):
             bools = [f for f in g.fluents if f["type"] == "bool" and not f["params"]]
             if not bools:
@@ -171,7 +235,7 @@ def cases(draw):
         elif k == "tn_subtask":
             op["id"] = g.pick(["i0", f"ns{len(ops)}"])
         elif k == "agent_fluent":
-            op.update(agent=g.i(0, 1), name=g.pick(["af0", f"naf{len(ops)}"]), default=g.b())
+            op.update(agent=g.i(0, 1), name=g.pick(["af0", f"naf{len(ops)}"]), default=g.b(), nodefault=g.b(0.4))
         elif k == "agent_goal":
             op.update(agent=g.i(0, 1), name="af0", dot=g.b())
         ops.append(op)
@@ -247,7 +311,7 @@ def build_ma(case):
     # re-use the single-agent builder for types / objects / fluents / expressions, then transplant
     b = build({**spec, "actions": [], "goals": [], "traj": [], "init": spec["init"], "metric": None, "timed_effects": [], "timed_goals": []})
     env, em, tm = b.env, b.em, b.tm
-    mp = MultiAgentProblem("ma", env)
+    mp = MultiAgentProblem("ma", env, initial_defaults={b.typ(t): b._const_noobj(v) for t, v in spec.get("type_defaults") or []})
     for o in b.problem.all_objects:
         mp.add_object(o)
     for f in b.problem.fluents:
@@ -324,6 +388,7 @@ def digest(p):
         return d
     d = problem_digest(p)
     d["defaults"] = sorted((f.name, repr(edig(v))) for f, v in p.fluents_defaults.items())
+    d["type_defaults"] = sorted((repr(tdig(t)), repr(edig(v))) for t, v in p.initial_defaults.items())
     if isinstance(p, ContingentProblem):
         d["hidden"] = sorted(repr(edig(h)) for h in p.hidden_fluents)
         d["oneof"] = sorted(repr(sorted(repr(edig(x)) for x in c)) for c in p.oneof_constraints)
@@ -428,6 +493,25 @@ def apply_op(case, b, p, op, side):
                     raise Skip()
         finally:
             b.params = {}
+    elif k in ("dur_effect", "dur_cond"):
+        from unified_planning.model import DurativeAction
+
+        if not p.has_action(op["action"]):
+            raise Skip()
+        act = p.action(op["action"])
+        if not isinstance(act, DurativeAction):
+            raise Skip()
+        b.params = {q.name: q for q in act.parameters}
+        try:
+            if k == "dur_cond":
+                act.add_condition(b.interval(op["iv"]), b.expr(op["e"]))
+            else:
+                try:
+                    b.add_effect(act, op["eff"], b.timing(op["t"]))
+                except UPEffectTypeError:
+                    raise Skip()
+        finally:
+            b.params = {}
     elif k in ("oneof", "or", "unknown"):
         apply_hidden(p, b, k, op["fluents"])
     elif k == "add_task":
@@ -439,7 +523,12 @@ def apply_op(case, b, p, op, side):
             raise Skip()
         p.task_network.add_subtask(t0, ident=op["id"])
     elif k == "agent_fluent":
-        p.agents[op["agent"]].add_fluent(op["name"], tm.BoolType(), default_initial_value=op["default"])
+        # (MultiAgentProblem.__eq__ needs every ground fluent to have an initial value, so a fluent is only left
+        # without its own default when a per-type default exists)
+        if op.get("nodefault") and any(t == "bool" for t, _ in case["problem"].get("type_defaults") or []):
+            p.agents[op["agent"]].add_fluent(op["name"], tm.BoolType())
+        else:
+            p.agents[op["agent"]].add_fluent(op["name"], tm.BoolType(), default_initial_value=op["default"])
     elif k == "agent_goal":
         ag = p.agents[op["agent"]]
         if not ag.has_fluent(op["name"]):
@@ -523,7 +612,7 @@ def check(ctx, case):
             raise Violation(f"outcome-differs:{case['class']}:{op['op']}", f"{desc}: {n1}: {r1}, {n2}: {r2}", case)
         if r1.startswith("raised"):
             feats.add("rejected")
-        if op["op"] in ("timed_effect", "act_effect", "act_pre", "metric"):
+        if op["op"] in ("timed_effect", "act_effect", "act_pre", "metric", "dur_effect"):
             feats.add("bookkeeping")
         ctx.cls(f"op:{op['op']}:{'ok' if r1 == 'ok' else 'rejected'}")
         compare(case, orig, clone, f"after {desc} ({r1})", "edited")
